@@ -10,20 +10,20 @@ use swift_mt_message::messages::MT103;
 use swift_mt_message::parser::SwiftParser;
 
 // every component carries a different value, so that swapped components are visible
-const B1: &str = "F01BANKBEBBAXXX1234567890";
-const B3_ORDER: &[(&str, &str)] = &[
+pub const B1: &str = "F01BANKBEBBAXXX1234567890";
+pub const B3_ORDER: &[(&str, &str)] = &[
     ("103", "EBA"), ("113", "NNNN"), ("108", "MUR1234567890123"), ("119", "STP"),
     ("423", "24071812345698"), ("106", "240717BANKBEBBAXXX1234567890"), ("424", "RELREF123"),
     ("111", "001"), ("121", "8a562c65-9a7e-4d8b-8f3a-2b1c5d6e7f80"), ("115", "ADDRESSEE INFO"),
     ("165", "ABC/RELEASE INFO"), ("433", "AOK/NO HIT"), ("434", "FPO/CONTROL INFO"),
 ];
-const B5_ORDER: &[(&str, &str)] = &[
+pub const B5_ORDER: &[(&str, &str)] = &[
     ("CHK", "123456789ABC"), ("TNG", ""), ("PDE", "1348120811BANKFRPPAXXX2222123456"), ("DLM", ""),
     ("MRF", "1806271539180626BANKFRPPAXXX2222123456"), ("PDM", "1213120811BANKFRPPAXXX2222123456"),
     ("SYS", "1454120811BANKFRPPAXXX2222123456"), ("MAC", "00000000"),
 ];
 
-fn b2_text(shape: &str) -> String {
+pub fn b2_text(shape: &str) -> String {
     match shape {
         "I_P" => "I103BANKDEFFXXXXN".into(),
         "I_PM" => "I103BANKDEFFXXXXN2".into(),
@@ -33,7 +33,7 @@ fn b2_text(shape: &str) -> String {
     }
 }
 
-fn tagtext(tag: &str, val: &str) -> String {
+pub fn tagtext(tag: &str, val: &str) -> String {
     if val.is_empty() { format!("{{{}}}", tag) } else { format!("{{{}:{}}}", tag, val) }
 }
 
